@@ -78,7 +78,7 @@ _DECIDING = ["grid2d.array.container", "grid2d.array.pairing", "grid2d.grid.pair
              "project.grid1d.pairing", "project.direction_same_for_1d_and_2d", "project.irregular.pairing", "radial.outside_unchanged", "radial.inside_radius",
              "radial.inside_ray", "radial.result_pairing", "transform.received", "transform.pairing",
              "transform.not_twice"]
-MIN_MONITORS = {"*": {k: 20 for k in _DECIDING}}
+MIN_MONITORS = {"*": dict({k: 20 for k in _DECIDING}, **{"radial.plain_array_sequence": 20, "radial.callers_coordinates_untouched": 20})}
 
 RADIAL_MIN = {"VerifC17Small": 1e-8, "VerifC17Mid": 0.3, "VerifC17Big": 2.5}
 
@@ -194,6 +194,10 @@ def make_profiles(aa):
             @dec.relocate_to_radial_minimum
             def f_moved(self, grid, *args, **kwargs):
                 return np.array(self.see(grid), dtype=float)          # returns the coordinates that reached it
+
+            @dec.relocate_to_radial_minimum
+            def f_moved_only(self, grid, *args, **kwargs):
+                return np.array(self.see(grid), dtype=float)
 
             @dec.to_array
             @dec.transform
@@ -317,6 +321,34 @@ def check_radial_and_transform(ctx, prof_name, p, grid, gin, W, out_cls, wrap_ok
                 ctx.classes[c] += 1
     elif ok:
         ctx.check(False, "radial.one_call", calls=[(t, a.shape) for (t, a) in p.log], **W)
+    ctx.check(np.array_equal(np.asarray(grid), gin), "radial.callers_coordinates_untouched", how="decorator stack on the grid object",
+              sent=gin, now=lambda: np.asarray(grid), **W)
+    # the relocation used on its own on coordinates the caller owns as a plain array, then the SAME array evaluated by a profile
+    # of another class (another radial minimum): both evaluations are judged against the coordinates the caller supplied
+    raw = frame.copy()
+    others = [n for n in RADIAL_MIN if n != prof_name]
+    q = ctx.profiles[others[int(gin.shape[0]) % 2]](p.tags, centre=p.centre, angle=p.angle)
+    for who, nm in ((p, prof_name), (q, type(q).__name__), (p, prof_name)):
+        m_ = RADIAL_MIN[nm]
+        who.log.clear()
+        ok, res = ctx.guarded("radial.exception", lambda: who.f_moved_only(raw))
+        if not ok:
+            continue
+        if len(who.log) != 1 or who.log[0][1].shape != frame.shape:
+            ctx.check(False, "radial.one_call", calls=[(t, a.shape) for (t, a) in who.log], how="plain array", **W)
+            continue
+        got = who.log[0][1]
+        far, near = r >= m_, (r > 0) & (r < m_)
+        good = np.array_equal(got[far], frame[far])
+        if near.any():
+            rr = np.sqrt(got[near, 0] ** 2 + got[near, 1] ** 2)
+            with np.errstate(all="ignore"):
+                du = got[near] / rr[:, None] - frame[near] / r[near][:, None]
+            good = good and bool(np.all(np.abs(rr - m_) <= 1e-12 * m_)) and bool(np.all(np.abs(du) <= 1e-12))
+        ctx.check(good, "radial.plain_array_sequence", evaluating_class=nm, radial_minimum=m_, supplied=frame, received=got, **W)
+        ctx.check(np.array_equal(raw, frame), "radial.callers_coordinates_untouched", how="plain array, relocation alone",
+                  evaluating_class=nm, sent=frame, now=raw.copy(), **W)
+        who.log.clear()
     # transform alone
     p.log.clear()
     p.frame_log.clear()
